@@ -29,6 +29,7 @@ type c05Add struct {
 		Flags int64 `json:"flags"`
 		Cto   int64 `json:"cto"`
 	} `json:"d"`
+	First bool `json:"first"` // added with AddSample / AddSamples to the first trun of the first track (Fragment.tla AddFirst)
 }
 
 type c05Case struct {
@@ -36,6 +37,7 @@ type c05Case struct {
 	Tracks []int    `json:"tracks"`
 	Opt    bool     `json:"opt"`
 	Hist   []c05Add `json:"hist"`
+	Data   []int    `json:"data"` // tokens (history index + 1) in the order their data lies in the mdat
 	Impl   struct {
 		Truns [][]struct {
 			Wo  int `json:"wo"`
@@ -118,6 +120,7 @@ func (c *c05Case) buildSegment(api, encoder string, nfrags int, extras bool) (ou
 		var data []byte
 		var all []mp4.Sample
 		var pieces [][]byte
+		var pendingFirst []mp4.Sample
 		durIn := map[int]int64{}
 		// the payloads handed to the API are sub-slices (with spare capacity) of ONE source buffer laid out
 		// first sample, then the others in reverse order - as when samples come out of a demuxed buffer in
@@ -156,11 +159,24 @@ func (c *c05Case) buildSegment(api, encoder string, nfrags int, extras bool) (ou
 			case "meta":
 				frag.AddSample(s, dts)
 				data = append(data, d...)
-			case "metaToTrack":
-				if err := frag.AddSampleToTrack(s, uint32(a.T), dts); err != nil {
-					return nil, err
+			case "metaToTrack", "metaToTrack+samples":
+				switch {
+				case a.First && api == "metaToTrack":
+					frag.AddSample(s, dts)
+				case a.First:
+					// consecutive samples for the first trun as one batch through the scratch slice
+					pendingFirst = append(pendingFirst, s)
+					if k+1 == len(c.Hist) || !c.Hist[k+1].First {
+						scratch = append(scratch[:0], pendingFirst...)
+						frag.AddSamples(scratch, dts)
+						pendingFirst = pendingFirst[:0]
+					}
+				default:
+					if err := frag.AddSampleToTrack(s, uint32(a.T), dts); err != nil {
+						return nil, err
+					}
 				}
-				data = append(data, d...)
+				pieces = append(pieces, d)
 			case "samples", "interval":
 				all = append(all, s)
 				data = append(data, d...)
@@ -187,6 +203,12 @@ func (c *c05Case) buildSegment(api, encoder string, nfrags int, extras bool) (ou
 		if api == "fullToTrack" || api == "metaToTrack" {
 			if err := frag.AddSampleToTrack(mp4.Sample{Flags: 0x02000000, Dur: 1, Size: 0}, 9999, 0); err == nil {
 				return nil, fmt.Errorf("AddSampleToTrack accepts a sample for track 9999, which the fragment does not have")
+			}
+		}
+		if api == "metaToTrack" || api == "metaToTrack+samples" {
+			// the caller writes the data in the order of the truns: Fragment.tla's mdat sequence
+			for _, tok := range c.Data {
+				data = append(data, pieces[tok-1]...)
 			}
 		}
 		first := uint64(c.Hist[0].Dts + shift[c.Hist[0].T])
@@ -235,7 +257,7 @@ func (c *c05Case) buildSegment(api, encoder string, nfrags int, extras bool) (ou
 	if c.Opt {
 		seg.EncOptimize = mp4.OptimizeTrun
 	}
-	lazy := api == "meta" || api == "metaToTrack" || api == "samples"
+	lazy := api == "meta" || api == "metaToTrack" || api == "metaToTrack+samples" || api == "samples"
 	var buf bytes.Buffer
 	if !lazy {
 		if encoder == "W" {
@@ -440,6 +462,14 @@ func c05Replay(args []string) error {
 		if c.Kind == "single" {
 			apis = []string{"fullToTrack", "full", "meta", "metaToTrack", "samples", "interval", "interval+full"}
 		}
+		for _, a := range c.Hist {
+			if a.First { // only the metadata calls can add to the first trun after another one was written
+				apis = []string{"metaToTrack", "metaToTrack+samples"}
+			}
+		}
+		if len(c.Data) != len(c.Hist) {
+			return fmt.Errorf("case without the data order of Fragment.tla")
+		}
 		ids := make([]int64, len(c.Tracks))
 		for i, t := range c.Tracks {
 			ids[i] = int64(t)
@@ -448,6 +478,9 @@ func c05Replay(args []string) error {
 		hist := make([]string, len(c.Hist))
 		for i, a := range c.Hist {
 			hist[i] = fmt.Sprintf("%d%s", a.T, a.Cls)
+			if a.First {
+				hist[i] += "(first trun)"
+			}
 		}
 		// tracks that received no sample
 		emptyFirst := false
